@@ -662,6 +662,9 @@ where
                 let i = if chain == 0 { step % l } else { h.rng.below(l as u64) as usize };
                 let newv = if h.rng.chance(1, 5) && history.len() > 1 {
                     history[h.rng.below(history.len() as u64) as usize][i].clone()
+                } else if chain == 0 && step < 4 {
+                    // values of the lengths where length-limited paths start: 255, 256, 257 octets and 70000
+                    h.rng.bytes([255usize, 256, 257, 70000][step])
                 } else {
                     rand_msg(h)
                 };
